@@ -1,7 +1,7 @@
 SPECIFICATION Spec
 CONSTANTS
-  Alphabet <- WrapAlphabet
-  MaxSteps = 5
+  Alphabet <- WrapAlphabetT
+  MaxSteps = 4
   AutoStart = FALSE
   Deviation = "none"
 VIEW View
